@@ -662,6 +662,9 @@ class C07(Prop):
                 # carries no derived IV — `IV=` belongs to explicit IVs only
                 idx = [0] if g.chance(0.5) else sorted(g.r.sample(range(n), g.r.randint(1, n - 1)))
                 out.append(mk("r", k, "media_remove", hx(gen.render_media(a, None)), *idx, exp=None, mseq=a["mseq"] or 0, overflow=False, nexplicit=0, model=False))
+                # ... or renumbered by hand through the public `media_sequence` field
+                out.append(mk("u", k, "media_set_mseq", hx(gen.render_media(a, None)), (a["mseq"] or 0) + g.pick([1, 2, 100]) if (a["mseq"] or 0) < 2 ** 63 else 5,
+                              exp=None, mseq=0, overflow=False, nexplicit=0, model=False))
             if k % 5 == 0 and not overflow and (a["mseq"] or 0) == 0:
                 # the same history through the builder with every segment numbered explicitly (number = media sequence + position)
                 script = ["Tn 10000000000"] + (["M %d" % a["mseq"]] if a["mseq"] is not None else [])
@@ -685,11 +688,11 @@ class C07(Prop):
                     "detail": "" if ok else "segment numbers beyond 2^64-1 must be rejected, got " + res_kind(i), "stats": {"overflow": 1}}
         if node is None:
             return {"agree": (m == i) if m is not None else None, "ok": False, "nontrivial": False, "detail": "rejected: " + res_kind(i)}
-        if c["op"] == "media_remove":
+        if c["op"] in ("media_remove", "media_set_mseq"):
             text = decode_s(field(node, "text")[1]) if field(node, "text") else ""
             ok = ",IV=" not in text and ":IV=" not in text
             return {"agree": None, "ok": ok, "nontrivial": True, "stats": {"removed": 1},
-                    "detail": "" if ok else "after segments.remove(..) the written text carries an IV attribute although no key has an explicit IV: " + text[:400]}
+                    "detail": "" if ok else "after segments.remove(..) / media_sequence = n the written text carries an IV attribute although no key has an explicit IV: " + text[:400]}
         segs = media_segs(first_dump(node))
         nums = [int(field(s, "num")[1]) for s in segs]
         views = [seg_key_view(s) for s in segs]
